@@ -224,3 +224,16 @@ Print Assumptions C10_ok_says.
 Print Assumptions C10_write_counters.
 Print Assumptions C10_anchored.
 Print Assumptions C10_hold_oracle.
+
+(* generated-code tie *)
+(* Gen/GoFuncs.v holds the Gallina TRANSLATION of the Go body of Conn.rateLimit, regenerated
+   from the source on every run (translator/go2coq.go): conn.badness and conn.lastsent are
+   passed in and returned, the two time.Now() calls are the clock readings a, a' in order of
+   evaluation; it is equal to the model rate_limit (Proofs/GenEqFlood.v). *)
+From Verif Require Import GoFuncs GenEqFlood.
+Theorem gen_C10_rateLimit : forall bad last chars a a',
+  go_client_Conn_rateLimit bad last chars a a'
+  = (let '(st', t) := rate_limit {| fs_bad := bad; fs_last := last |} a a' chars in
+     Ok (fs_bad st', fs_last st', t)).
+Proof. exact go_rateLimit_eq. Qed.
+Print Assumptions gen_C10_rateLimit.
